@@ -72,7 +72,8 @@ class Engine(EngineBase):
 
     def rule(self):
         return ("seeded histories (<= 40 steps) of init / remove / re-key / update_cache / restart / delete "
-                "cache file / open-all over <= 8 state points, pool width 1-4 with seeded interleaving of the "
+                "cache file / open-all over <= 8 state points (refused re-keys included; open by full id and by "
+                "1-3 character abbreviations), pool width 1-4 with seeded interleaving of the "
                 "cache-filling tasks; every observation taken with and without the cache file. distinct = "
                 "(abstract state: ids in workspace, ids in cache file, ids in the live session's memory) and "
                 "operation 3-grams; non-trivial = update_cache ran on a workspace that differed from the file")
